@@ -195,6 +195,10 @@ pub fn typing(rng: &mut Rng) -> (Vec<Finding>, u64) {
     let order: Vec<u64> = (0..12).map(|_| rng.below(5)).collect();
     let keys = ["int", "text", "flag", "list"];
     let which: Vec<usize> = (0..12).map(|_| rng.usize_below(4)).collect();
+    // half of the sequences: a second configuration is included after some of the reads; for properties that
+    // already have a type it carries a value of another type, for the others another value of the same type
+    let late_at: Option<usize> = if rng.chance(1, 2) { Some(rng.usize_below(12)) } else { None };
+    let late_wild = rng.chance(1, 2);
     let r = vcommon::catch(|| {
         let mut out: Vec<Finding> = Vec::new();
         let mut sim = Sim::new(());
@@ -204,7 +208,19 @@ pub fn typing(rng: &mut Rng) -> (Vec<Finding>, u64) {
         // model: the type each key was successfully read with
         let mut typed: [Option<u64>; 4] = [None; 4];
         let natural = [0u64, 1, 2, 3]; // int->u64, text->String, flag->bool, list->Vec<u32>
-        for (ty, ki) in order.iter().zip(&which) {
+        let mut typed_before_late: [bool; 4] = [true; 4];
+        for (step, (ty, ki)) in order.iter().zip(&which).enumerate() {
+            if late_at == Some(step) {
+                let same = ["43", "late", "false", "[9]"];
+                let other = ["\"changed\"", "7", "[1]", "true"];
+                let mut late = String::new();
+                for k in 0..4 {
+                    typed_before_late[k] = typed[k].is_some();
+                    let prefix = if late_wild { "<any>" } else { "m" };
+                    late.push_str(&format!("\"{prefix}.{}\": {}\n", keys[k], if typed[k].is_some() { other[k] } else { same[k] }));
+                }
+                sim.include_cfg(&late);
+            }
             let key = keys[*ki];
             // returns (ok, rendered value)
             let (ok, val): (bool, String) = match ty {
@@ -252,11 +268,13 @@ pub fn typing(rng: &mut Rng) -> (Vec<Finding>, u64) {
         // after all the (partly failed) reads every key is still readable with its natural or first type
         for (ki, key) in keys.iter().enumerate() {
             let t = typed[ki].unwrap_or(natural[ki]);
+            // a property without a type at the time of the late include may show either configured value
+            let alt = late_at.is_some() && !typed_before_late[ki];
             let ok = match t {
-                0 => m.prop::<u64>(key).map(|p| p.get() == Some(42)).unwrap_or(false),
-                1 => m.prop::<String>(key).map(|p| p.get().as_deref() == Some("hello")).unwrap_or(false),
-                2 => m.prop::<bool>(key).map(|p| p.get() == Some(true)).unwrap_or(false),
-                3 => m.prop::<Vec<u32>>(key).map(|p| p.get() == Some(vec![1, 2, 3])).unwrap_or(false),
+                0 => m.prop::<u64>(key).map(|p| p.get() == Some(42) || (alt && p.get() == Some(43))).unwrap_or(false),
+                1 => m.prop::<String>(key).map(|p| p.get().as_deref() == Some("hello") || (alt && p.get().as_deref() == Some("late"))).unwrap_or(false),
+                2 => m.prop::<bool>(key).map(|p| p.get() == Some(true) || (alt && p.get() == Some(false))).unwrap_or(false),
+                3 => m.prop::<Vec<u32>>(key).map(|p| p.get() == Some(vec![1, 2, 3]) || (alt && p.get() == Some(vec![9]))).unwrap_or(false),
                 _ => m.prop::<f64>(key).map(|p| p.get().is_some()).unwrap_or(false),
             };
             if !ok {
@@ -271,7 +289,7 @@ pub fn typing(rng: &mut Rng) -> (Vec<Finding>, u64) {
         Ok(o) => f.extend(o),
         Err(p) => f.push(("panicked", format!("typed property reads panicked: {p}"))),
     }
-    (f, 12)
+    (f, 12 + u64::from(late_at.is_some()))
 }
 
 const SEGS: &[&str] = &["a", "al", "ali", "alice", "alicent", "b", "a1", "é", "alé", "日本", "x_y"];
@@ -389,9 +407,12 @@ pub fn cmd(args: &Args) -> Report {
                 stop = true;
             }
         }
-        if i % 500 == 0 {
+        if i % 20 == 0 {
             let (f, n) = typing(&mut rng);
             rep.count("typed_reads", n);
+            if n > 12 {
+                rep.count("typed_sequences_with_a_late_include", 1);
+            }
             for (kind, detail) in f.into_iter().take(1) {
                 rep.violation(&format!("C17/{kind}"), &detail, json!({"driver": "desmon", "sub": "c17", "typing": true}));
             }
